@@ -204,6 +204,48 @@ def _shard_c22(args):
                                         {**label, "lost": lost}))
                         if len(res) > 30:
                             return n, res
+        # the safety net of _minimize: whatever a minimization step did to the test cases, a suite that lost coverage is replaced
+        # by the unminimized one.  A combined visitor that, after its real run, removes the first statement of the first test
+        # case in place (with everything that depends on it) stands for a step that loses coverage.
+        if idx == 0:
+            import pynguin.ga.postprocess as pp
+            real_visit = pp.CombinedMinimizationVisitor.visit_test_suite_chromosome
+
+            def lossy_visit(self, chromosome):
+                real_visit(self, chromosome)
+                if chromosome.size() == 0 or chromosome.get_test_case_chromosome(0).test_case.size() == 0:
+                    return
+                victim = chromosome.get_test_case_chromosome(0)
+                removed = victim.test_case.remove_statement_with_forward_dependencies(0)
+                self._removed_statements += len(removed)
+                victim.remove_last_execution_result()
+                victim.changed = True
+                chromosome.changed = True
+            pp.CombinedMinimizationVisitor.visit_test_suite_chromosome = lossy_visit
+            try:
+                mini = config.configuration.test_case_output.minimization
+                for spec in directed + [((0,), (2, 3)), ((1, 3),), ((5,), (0, 1))]:
+                    for direction in (config.MinimizationDirection.FORWARD, config.MinimizationDirection.BACKWARD):
+                        mini.test_case_minimization_strategy, mini.test_case_minimization_direction = config.MinimizationStrategy.COMBINED, direction
+                        counter = itertools.count()
+                        suite = tsc.TestSuiteChromosome()
+                        for t in spec:
+                            suite.add_test_case_chromosome(tcc.TestCaseChromosome(test_case=_mk_test(t, [False] * len(t), counter)))
+                        for fn in funcs:
+                            suite.add_coverage_function(fn)
+                        before = fresh_cov(suite)
+                        orig_text = [ch.test_case.to_code() for ch in suite.test_case_chromosomes]
+                        n += 1
+                        gen._minimize(suite, algorithm)   # noqa: SLF001
+                        after = fresh_cov(suite)
+                        if not all(map(math.isclose, before, after)) and suite.test_case_chromosomes:
+                            res.append(("a suite that lost coverage during minimization is replaced by the unminimized suite",
+                                        "coverage-not-restored:combined",
+                                        {"direction": direction.value, "suite": orig_text, "injected": "first statement of the first test case removed "
+                                         "in place after the real combined minimization", "coverage_before": before, "coverage_after": after,
+                                         "returned": [ch.test_case.to_code() for ch in suite.test_case_chromosomes]}))
+            finally:
+                pp.CombinedMinimizationVisitor.visit_test_suite_chromosome = real_visit
     finally:
         hook.__exit__(None, None, None)
         __import__("shutil").rmtree(workdir, ignore_errors=True)
